@@ -168,10 +168,41 @@ def h13b(c, U=2):
         c.cover("injected")
 
 
+KW = [{}, {"inplay": None}, {"inplay": False}, {"inplay": True}, {"seconds_to_start": 0}, {"seconds_to_start": 600}, {"max_inplay_seconds": 0},
+      {"max_inplay_seconds": 300}, {"inplay": False, "seconds_to_start": 600}]
+
+
+def h13c(c):
+    """stream sharing between strategies: two strategies on the same market file only share a historical stream (and therefore a
+    listener filter) when their listener filters mean the same; otherwise one strategy's data would be filtered by the other's
+    settings and its results would depend on who registered first"""
+    with cm.config_set(simulated=True):
+        fl, (client,), strategies = cm.new_sim(n_strategies=2)
+        ka = dict(c.choose("kwargs_a", KW))
+        kb = dict(c.choose("kwargs_b", KW))
+        ep_a = c.choose("event_processing_a", [False, True])
+        ep_b = c.choose("event_processing_b", [False, True])
+        md = cm.NS(event_id="30000001", market_type="WIN", country_code="GB")
+        with c.guard("add_historical_stream"):
+            sa = fl.streams.add_historical_stream(strategies[0], "/data/1.100000001", md, ep_a, {}, **ka)
+            sb = fl.streams.add_historical_stream(strategies[1], "/data/1.100000001", md, ep_b, {}, **kb)
+        norm = lambda k: {x: v for x, v in k.items() if v is not None}  # noqa: E731
+        same_meaning = norm(ka) == norm(kb) and ep_a == ep_b
+        if not same_meaning:
+            c.ob("different-filters=>separate-streams", sa is not sb, a=str(ka), b=str(kb))
+            c.cover("separate")
+        else:
+            c.ob("shared-stream-has-the-requested-filter", sa is not sb or norm(sa.listener_kwargs) == norm(ka))
+            c.cover("may-share")
+        for st, k in ((sa, ka), (sb, kb)):
+            c.ob("stream-carries-its-strategy-filter", norm(st.listener_kwargs) == norm(k), got=str(st.listener_kwargs), want=str(k))
+
+
 OUT = ["strategies sharing mutable Python state by other means", "more than 2 orders per strategy / 2 traded levels (H13a)", "more than U updates x 3 strategies (H13b)"]
 HARNESSES = [
     Harness("H13a", h13a, quick=dict(na=1, nb=1), thorough=dict(na=2, nb=2), pattern="P4 relational (two worlds, same symbolic inputs)", requires=["worlds", "A-filled"],
             outside=OUT, max_paths=(400000, 4000000), wall_s=(300, 3000)),
+    Harness("H13c", h13c, pattern="exhaustive choice product (structural)", requires=["separate", "may-share"], outside=OUT, selfcheck=False),
     Harness("H13b", h13b, quick=dict(U=2), thorough=dict(U=3), pattern="P5 fault schedule as a variable", requires=["injected"], outside=OUT, selfcheck=False),
 ]
 META = {"assumptions": ["simulated_strategy_isolation = True (the default) for H13a"]}
